@@ -284,7 +284,13 @@ class MgmComputation(VariableComputation):
         if not self._neighbors:
             # If a variable has no neighbors, we must select its final value immediately
             # as it will never receive any message.
-            value, cost = optimal_cost_value(self._variable, self._mode)
+            if self.__utilities__:
+                # only unary constraints: their cost counts as much as the
+                # variable's own cost when choosing the final value
+                values, cost = self._compute_best_value()
+                value = values[0]
+            else:
+                value, cost = optimal_cost_value(self._variable, self._mode)
             self.value_selection(value, cost)
 
             if self.logger.isEnabledFor(logging.INFO):
